@@ -1,7 +1,14 @@
+import re
+
+# characters that no XML (or HTML) document can contain
+_control_chars = re.compile('[\x00-\x08\x0b\x0c\x0e-\x1f\x7f]')
+
+
 def escape_html(data):
     """
     Escape user-provided input data for safe inclusion in HTML _and_ JS to prevent XSS.
     """
+    data = _control_chars.sub('', data)
     data = data.replace('&', '&amp;')
     data = data.replace('>', '&gt;')
     data = data.replace('<', '&lt;')
